@@ -170,3 +170,83 @@ func VH_C13_scan_range() {
 	}
 	verifReach("end")
 }
+
+// ---- C12 at the low level: index entries whose payload spills to overflow
+// pages (every comparison of the binary search then costs a page read), one
+// page read fails (one-shot, ordinal k symbolic).
+
+// vhSpilledLeaf: an index leaf of n entries, each stored as 10 local bytes +
+// one overflow page holding the rest of the 19-byte record.
+func vhSpilledLeaf(e *vhIndexEnv, n int) int {
+	l := &indexLeaf{}
+	for i := 0; i < n; i++ {
+		en := e.newEnt()
+		full := vhRecEnt(en).Payload
+		pg := make([]byte, 512)
+		copy(pg[4:], full[10:])
+		id := 100 + i
+		e.pager.IDs = append(e.pager.IDs, id)
+		e.pager.Bufs = append(e.pager.Bufs, pg)
+		l.cells = append(l.cells, cellPayload{Length: int64(len(full)), Payload: full[:10], Overflow: id})
+	}
+	return e.newPage(l)
+}
+
+//verif:bounds index leaf of 3 (thorough: 4) entries whose records spill to one overflow page each; operations ScanEq / ScanMin / ScanRange / Scan with symbolic int64 keys; the failing page read k = any ordinal (one-shot I/O error)
+func VH_C12_index_overflow() {
+	e := &vhIndexEnv{vhTreeEnv: vhNewEnv()}
+	e.desc = verifBool()
+	n := 3 + verifTier()
+	root := vhSpilledLeaf(e, n)
+	in := &Index{db: e.db, root: root}
+	kv := vhEnt{k: verifInt64()}
+	key := Key{{V: kv.k, Desc: e.desc}}
+	k := verifInt()
+	verifAssume(k >= 1)
+	e.pager.FailAt = k
+	var got []Record
+	cb := func(r Record) bool { got = append(got, r); return false }
+	var err error
+	var want []vhEnt
+	switch verifChoice(4) {
+	case 0:
+		err = in.ScanEq(key, cb)
+		for _, en := range e.ents {
+			if vhEntEQ(en, kv, 1) {
+				want = append(want, en)
+			}
+		}
+	case 1:
+		err = in.ScanMin(key, cb)
+		for _, en := range e.ents {
+			if vhEntGE(en, kv, 1, e.desc) {
+				want = append(want, en)
+			}
+		}
+	case 2:
+		hi := vhEnt{k: verifInt64()}
+		err = in.ScanRange(key, Key{{V: hi.k, Desc: e.desc}}, cb)
+		for _, en := range e.ents {
+			if verifAnd(vhEntGE(en, kv, 1, e.desc), !vhEntGE(en, hi, 1, e.desc)) {
+				want = append(want, en)
+			}
+		}
+	case 3:
+		err = in.Scan(cb)
+		want = e.ents
+	}
+	if e.pager.Reads >= k {
+		verifAssert(err != nil, "a failed page read is reported")
+		verifReach("faulted")
+	} else {
+		verifAssert(err == nil, "no fault, no error")
+		verifAssert(len(got) == len(want), "complete result without fault")
+	}
+	verifAssert(len(got) <= len(want), "never more rows than the fault-free result")
+	if len(got) <= len(want) {
+		for i := range got {
+			verifAssert(vhSameEnt(got[i], want[i]), "delivered rows are a correct prefix")
+		}
+	}
+	verifReach("end")
+}
